@@ -140,8 +140,45 @@ def run_case(case, seed):
                         break
             if n and ok:
                 res['outcomes'].add('equal')
+    # ties for the largest coefficient (incl. the untouched all-equal coefficients of a fresh SuperNet): whatever branch "the largest"
+    # resolves to, export must keep the branch the hard-selection forward uses
+    tie_states = [('fresh', None)]
+    n0 = combs[0][1].n_branches if combs else 0
+    for i in range(n0):
+        for j in range(i + 1, n0):
+            tie_states.append(('tie', (i, j)))
+    for kind, pair in tie_states:
+        label = {'tie': kind, 'pair': list(pair) if pair else None}
+        if only is not None and only != label:
+            continue
+        with torch.no_grad():
+            for bi, (_, m) in enumerate(combs):
+                a = torch.full((m.n_branches,), 1.0 / m.n_branches)
+                if kind == 'tie' and bi == 0:
+                    a = torch.linspace(0.0, 0.2, m.n_branches)
+                    a[pair[0]] = 0.9
+                    a[pair[1]] = 0.9
+                m.alpha.copy_(a)
+        res['states'] += 1
+        res['transitions'] += 1
+        res['evals'] += 1
+        try:
+            with torch.no_grad():
+                y = nas(x)
+                exp = nas.export()
+                exp.eval()
+                nas.eval()
+                ye = exp(x)
+            ok, why = tol.out_close(y, ye)
+            if not ok:
+                add('output-differs', 'output-differs/tied-maximum', f'coefficients with a tie for the maximum: hard-selection output vs exported: {why}', label)
+            else:
+                res['outcomes'].add('equal')
+        except Exception as e:
+            if not any(b == 'fblk' for blk in blocks for b in blk['branches']):
+                add('export-or-run-raises', 'export-or-run-raises/tied-maximum', f'{type(e).__name__}: {str(e)[:200]}', label)
     res['outcomes'] = sorted(res['outcomes'])
-    res['sample'] = {'prog': prog, 'blocks': [m.n_branches for _, m in combs]}
+    res['sample'] = {'prog': prog, 'blocks': [m.n_branches for _, m in combs], 'tie_states': len(tie_states)}
     return res
 
 
